@@ -14,7 +14,7 @@ from ..gen import annotations as G
 from ..model import dims as M
 
 LEVEL = "exploration"
-TECHNIQUE = "runtime monitoring: reference-model oracle over generated check sequences (verdict + print_bindings transcript after every check); annotation objects reused across contexts, hostile axis names, call arguments incl. empty *args/**kwargs and defaults; short-lived values whose id() is handed on inside one scope; array types whose instances change over time (weakref proxies, protocols with data members, late ABC registration)"
+TECHNIQUE = "runtime monitoring: reference-model oracle over generated check sequences (verdict + print_bindings transcript after every check); annotation objects reused across contexts, hostile axis names, call arguments incl. empty *args/**kwargs and defaults; short-lived values whose id() is handed on inside one scope; array types whose instances change over time (weakref proxies, protocols with data members, late ABC registration); scripts run one level below an enclosing scope that binds the same names to other sizes"
 LEVEL_TEXT = (
     "Held on every generated context explored (hundreds of thousands of checks per run, all decision branches "
     "counted and required non-zero). Sampling, not proof: the space of dim strings x shapes x prior states is unbounded."
